@@ -435,6 +435,9 @@ C17(pre, ev, post, aux) ==
                 IF cfg.devs[b].bsize > 0
                 THEN post.part[post.dev[b].out].batch /\ Len(post.part[post.dev[b].out].leaves) = cfg.devs[b].bsize
                 ELSE ~post.part[post.dev[b].out].batch)
+    \cup C("C17.BatchHistoryAppliedToAllParts",
+           \A b \in DOMAIN post.part : post.part[b].batch =>
+                \A i \in DOMAIN post.part[b].leaves : IsSuffix(post.part[b].hist, post.part[post.part[b].leaves[i]].hist))
     \cup C("C17.InProgressBelowSize", \A b \in Batchers : cfg.devs[b].bsize > 0 => Len(post.dev[b].inprog) < cfg.devs[b].bsize)
     \cup C("C17.AcceptsOnlyWhenEmpty",
            \A b \in Batchers : Occ(ev, "recv", b) # <<>> => (pre.dev[b].inp = 0 /\ pre.dev[b].out = 0))
